@@ -273,7 +273,7 @@ def work_one(job):
             if budget: signal.alarm(0)
             from . import validate
             tv = time.time()
-            rec['validation'] = validate.check_body(run, k, obs, goals, validate.wait_result(vf, k.name))
+            rec['validation'] = validate.check_body(run, k, obs, goals, validate.wait_result(vf, k.name), budget_s=getattr(P, 'VAL_BUDGET', 30))
             rec['validation']['seconds'] = round(time.time() - tv, 2)
         if ex.fmf_seen: rec['fmf'] = list(set(map(str, ex.fmf_seen)))
     except JobBudget:
@@ -664,7 +664,7 @@ def finish(prop, P, tier, seed, kernels, dropped, missing, recs, wall, t_lower, 
         v = r.get('validation')
         if not v: continue
         val['bodies'] += 1
-        for key in ('agreed', 'skipped_pre', 'trapped', 'inconclusive', 'solver'): val[key] += v.get(key, 0)
+        for key in ('agreed', 'skipped_pre', 'trapped', 'inconclusive', 'solver', 'skipped_time'): val[key] += v.get(key, 0)
         if v.get('error'): valerr.append('%s: %s' % (r['kernel'], v['error']))
         for m_ in v.get('mismatches', []): mism.append(dict(kernel=r['kernel'], **m_))
     vi = getattr(P, '_valinfo', None)
@@ -672,7 +672,7 @@ def finish(prop, P, tier, seed, kernels, dropped, missing, recs, wall, t_lower, 
         evidence['coverage']['encoder_validation'] = dict(
             what='formula of each distinct body evaluated on concrete inputs (boundary lattice + seeded random) and compared with the natively compiled wrapper: the native result must be an outcome the formula allows',
             bodies_validated=val['bodies'], inputs_agreed=val['agreed'], inputs_outside_preconditions=val['skipped_pre'],
-            inputs_inconclusive=val['inconclusive'], needed_solver=val['solver'], mismatches=mism[:20], mismatch_count=len(mism), mismatch_kernels=dict(collections.Counter(m_['kernel'] for m_ in mism).most_common(40)),
+            inputs_inconclusive=val['inconclusive'], inputs_skipped_for_time=val['skipped_time'], needed_solver=val['solver'], mismatches=mism[:20], mismatch_count=len(mism), mismatch_kernels=dict(collections.Counter(m_['kernel'] for m_ in mism).most_common(40)),
             native_errors=valerr[:10], not_validated_signature=vi.get('unsupported_signature', 0),
             not_covered='wrappers with pointer arguments (validated through counterexample replay only), abstract / token FP modes, architectures the host cannot execute')
         evidence['coverage']['traces_validated_against_impl'] += val['agreed']
